@@ -211,7 +211,9 @@ def run_export(vec):
         vals = base.copy()
         if sparse:
             vals[(vals * 4).astype(int) % 3 == 0] = 0.0     # a deterministic pattern of zeros
-        arr = FlodymArray(dims=dims, values=vals.copy(), name="x")
+        # every second style stores the values in a non-C-contiguous buffer: export must go by label, not memory order
+        store = np.asfortranarray(vals.copy()) if (vec["styleid"] % 2 == 0 and vals.ndim >= 2) else vals.copy()
+        arr = FlodymArray(dims=dims, values=store, name="x")
         index = st["place"] != "columns"
         dcol = None if not wide else (DIMOBJ[wide].name if st["hdr"] in ("name", "anon") else wide)
         tag = desc + f"to_df(index={index}, dim_to_columns={dcol!r}, sparse={sparse}): {{C11,C04}} "
